@@ -10,6 +10,7 @@ pub mod c02;
 pub mod c03;
 pub mod c04;
 pub mod c05;
+pub mod c08;
 pub mod c13;
 pub mod c14;
 pub mod c15;
@@ -80,6 +81,7 @@ pub fn get(id: &str, tier: Tier) -> Option<Check> {
         "C03" => c03::check(tier),
         "C04" => c04::check(tier),
         "C05" => c05::check(tier),
+        "C08" => c08::check(tier),
         "C13" => c13::check(tier),
         "C14" => c14::check(tier),
         "C15" => c15::check(tier),
@@ -90,7 +92,7 @@ pub fn get(id: &str, tier: Tier) -> Option<Check> {
     })
 }
 
-pub const ALL: &[&str] = &["C02", "C03", "C04", "C05", "C13", "C14", "C15", "C16", "C18", "C20"];
+pub const ALL: &[&str] = &["C02", "C03", "C04", "C05", "C08", "C13", "C14", "C15", "C16", "C18", "C20"];
 
 /// Stream-local seed for scenario `idx`.
 pub fn sseed(ctx: &Ctx, stream: &str, idx: u64) -> u64 {
